@@ -489,7 +489,7 @@ func (w *winHandler) Arrive(point string) {
 }
 
 // the windows in which another call can interleave with lock-free parts of Delete / rollover come up more often
-var windowWeights = map[string]int{"writer.index.searched": 4, "delete.found": 6, "delete.checked": 4, "delete.rewritten": 4, "delete.reader.before-swap": 2,
+var windowWeights = map[string]int{"fs.fsync": 6, "fs.rename": 2, "getbytime.segment": 3, "getbykey.segment": 2, "consumebykey.segment": 2, "reader.consumebykey.next": 2, "writer.index.searched": 4, "delete.found": 6, "delete.checked": 4, "delete.rewritten": 4, "delete.reader.before-swap": 2,
 	"publish.roll.opened": 2, "publish.roll.swapped": 2}
 
 func pickWindow(id int) string {
@@ -512,6 +512,10 @@ var windowPoints = []string{
 	"delete.found", "delete.checked", "delete.rewritten", "delete.reader.before-swap", "writer.delete.validated",
 	"reader.consume.index", "reader.consume.messages", "reader.index.loading", "reader.messages.loading", "reader.gc.index-closed",
 	"reader.index.wlock", "reader.messages.wlock", "writer.index.searched",
+	// the walks of the key / time lookups (hook commit a290d78): held between two reader objects
+	"getbykey.segment", "getbytime.segment", "getbytime.next", "consumebykey.segment", "reader.consumebykey.next",
+	// file-system steps as pause points (the FS tap): a call held right after one of its fsyncs / renames / writes
+	"fs.fsync", "fs.rename", "fs.write",
 }
 
 // placement: call A is held at pause point W; calls B then C run to completion (or block on A's locks) inside the window.
@@ -539,6 +543,27 @@ func placement(id int, seed int64, root string) (*chist, error) {
 		}
 	case w == "reader.gc.index-closed":
 		a = ccall{Op: "gc"}
+	case w == "fs.fsync":
+		// Sync (and a Publish that rolls over, a Delete) held between its fsyncs: the writer must not change under it
+		switch rng.Intn(4) {
+		case 0:
+			a = ccall{Op: "publish", N: 1 + rng.Intn(3)}
+		case 1:
+			a = e.segDelete(rng)
+		default:
+			a = ccall{Op: "sync"}
+		}
+	case w == "fs.rename":
+		a = e.segDelete(rng)
+	case w == "fs.write":
+		a = ccall{Op: "publish", N: 1 + rng.Intn(3)}
+	case w == "getbykey.segment":
+		a = ccall{Op: "getbykey", Key: concKeys[rng.Intn(len(concKeys))]}
+	case w == "getbytime.segment", w == "getbytime.next":
+		// times of the prepared log are "now"; a query a little in the past or the future of the newest message
+		a = ccall{Op: "getbytime", T: e.x.relT(time.Now()) - int64(rng.Intn(3))*int64(rng.Intn(2000))}
+	case w == "consumebykey.segment", w == "reader.consumebykey.next":
+		a = ccall{Op: "consumebykey", Key: concKeys[rng.Intn(len(concKeys))], Off: int64(rng.Intn(int(init.Next)+2)) - 1, Max: 3}
 	case w == "writer.index.searched":
 		// a consumer at (or just before) the end of the log, held between its search of the writer's items and its
 		// read of the next offset, while a Publish tries to append
@@ -546,7 +571,12 @@ func placement(id int, seed int64, root string) (*chist, error) {
 	default:
 		a = ccall{Op: "consume", Off: int64(rng.Intn(int(init.Next) + 1)), Max: 3}
 	}
-	h := &winHandler{point: w, skip: rng.Intn(2) * rng.Intn(2), arrived: make(chan struct{}, 1), release: make(chan struct{})}
+	skip := rng.Intn(2) * rng.Intn(2)
+	lookupWin := strings.HasPrefix(w, "getby") || strings.Contains(w, "consumebykey") || strings.HasPrefix(w, "fs.")
+	if lookupWin {
+		skip = rng.Intn(3) // the interesting windows of a walk are after its first reader object
+	}
+	h := &winHandler{point: w, skip: skip, arrived: make(chan struct{}, 1), release: make(chan struct{})}
 	doneA := make(chan struct{})
 	go func() {
 		gid := curGoid()
@@ -569,6 +599,12 @@ func placement(id int, seed int64, root string) (*chist, error) {
 			c := randCall(rng, init.Next+2)
 			if k == 1 && w == "writer.index.searched" {
 				c = ccall{Op: "publish", N: 1 + rng.Intn(3)}
+			}
+			if k == 1 && lookupWin && rng.Intn(4) > 0 {
+				c = ccall{Op: "publish", N: 1 + rng.Intn(3)} // fills / rolls the writing segment under the held call
+				if rng.Intn(3) == 0 && init.Next > 0 {
+					c = ccall{Op: "delete", S: []int64{init.Next - 1}} // a tail delete replaces the writer
+				}
 			}
 			if k == 1 && strings.HasPrefix(w, "delete.") && rng.Intn(4) > 0 {
 				c = ccall{Op: "publish", N: 1 + rng.Intn(3)} // a publish (possibly rolling over) inside the delete window
@@ -830,27 +866,51 @@ func runC08(r *SeqRun) {
 	nfree, nplace := tierN(r.Tier, 1500, 90000), tierN(r.Tier, 2400, 200000) // two thirds of the free runs are tailing-consumer runs
 	nshards := 14
 	schedFile := filepath.Join(r.Scratch, "conc-schedules.json")
-	if scheds, nstates, err := concSchedulesFromSpec("concgen_q.cfg", r.Scratch, 20*time.Minute); err != nil {
+	stride := func(scheds [][]cstep, max int) [][]cstep { // seeded stride
+		if len(scheds) <= max {
+			return scheds
+		}
+		var sel [][]cstep
+		step := float64(len(scheds)) / float64(max)
+		for i := 0; i < max; i++ {
+			sel = append(sel, scheds[int(float64(r.Seed%5)/5*step+float64(i)*step)%len(scheds)])
+		}
+		return sel
+	}
+	var all [][]cstep
+	if scheds, nstates, err := concSchedulesFromSpec("ConcGen.tla", "concgen_q.cfg", r.Scratch, 20*time.Minute); err != nil {
 		r.infra("KlevConc schedule generator: %v", err)
 		return
 	} else {
-		max := tierN(r.Tier, 1500, len(scheds))
-		if len(scheds) > max { // seeded stride
-			var sel [][]cstep
-			step := float64(len(scheds)) / float64(max)
-			for i := 0; i < max; i++ {
-				sel = append(sel, scheds[int(float64(r.Seed%5)/5*step+float64(i)*step)%len(scheds)])
-			}
-			scheds = sel
-		}
-		b, _ := json.Marshal(scheds)
-		os.WriteFile(schedFile, b, 0o644)
-		r.GenStates, r.NGen = nstates, len(scheds)
+		all = stride(scheds, tierN(r.Tier, 1500, len(scheds)))
+		r.GenStates, r.NGen = nstates, len(all)
 		if r.Tier == "quick" { // the generator run is the bounded design-level run of the quick tier (same constants as conc_q.cfg)
 			r.States += nstates
 			r.Design = append(r.Design, map[string]any{"module": "ConcGen.tla (KlevConc.tla)", "cfg": "concgen_q.cfg", "distinct": nstates,
 				"note": "KlevConc.tla exhaustive with QuiescentOK, HeadFlagOK and the linearization-point assertions; the same run emits one shortest schedule per distinct state for the replay"})
 		}
+	}
+	// the lookups' walks (KlevConcK.tla): only the schedules that end inside or right after a lookup are of interest
+	if scheds, nstates, err := concSchedulesFromSpec("ConcKGen.tla", "conckgen_q.cfg", r.Scratch, 20*time.Minute); err != nil {
+		r.infra("KlevConcK schedule generator: %v", err)
+		return
+	} else {
+		var ks [][]cstep
+		for _, s := range scheds {
+			if s[len(s)-1].P == "K" {
+				ks = append(ks, s)
+			}
+		}
+		ks = stride(ks, tierN(r.Tier, 1500, len(ks)))
+		all = append(all, ks...)
+		r.GenStates += nstates
+		r.NGen += len(ks)
+		r.Design = append(r.Design, map[string]any{"module": "ConcKGen.tla (KlevConcK.tla)", "cfg": "conckgen_q.cfg", "distinct": nstates, "schedules_replayed": len(ks),
+			"note": "KlevConcK.tla exhaustive (the lookups' linearization assertions); one shortest schedule per distinct state whose last step is a lookup step, replayed through the pause points between reader objects"})
+	}
+	{
+		b, _ := json.Marshal(all)
+		os.WriteFile(schedFile, b, 0o644)
 	}
 	var wg sync.WaitGroup
 	for s := 0; s < nshards; s++ {
